@@ -4,6 +4,7 @@ import (
 	"fmt"
 	"strconv"
 	"strings"
+	"time"
 
 	"storj.io/drpc/drpcwire"
 	"verifharness/corr"
@@ -534,6 +535,38 @@ func Run(o *corr.Out) {
 			return ""
 		})
 		emit(sc, w, "park")
+	}
+	// (E) two senders, one multi-frame message each, every frame its own transport write: the second
+	// sender queues on the write lock while the first is parked in the transport; released one write
+	// at a time.  The frames of the two messages must not interleave (message atomicity on the wire).
+	for _, c := range []struct{ split, wsize int }{{4, 1}, {1, 1}, {4, 16}, {3, 8}} {
+		for _, lens := range [][2]int{{20, 8}, {9, 9}, {5, 20}} {
+			sc := &scenario{split: c.split, manual: false, wsize: c.wsize}
+			a, b := make([]byte, lens[0]), make([]byte, lens[1])
+			for i := range a {
+				a[i] = byte(0xa0 + i%16)
+			}
+			for i := range b {
+				b[i] = byte(0xb0 + i%16)
+			}
+			script := []string{"auto!0", "i!1!send:" + corr.Hex(a), "i!2!send:" + corr.Hex(b)}
+			w := runScenario(sc, func(w *World, step int) string {
+				if step < len(script) {
+					act := script[step]
+					if f := strings.Split(act, "!"); f[0] == "i" {
+						tid, _ := strconv.Atoi(f[1])
+						w.remember(tid, f[2])
+					}
+					return act
+				}
+				if len(w.W.Parked()) > 0 && step < 38 {
+					time.Sleep(2 * time.Millisecond) // let a queued sender wait long enough for the mutex to hand over fairly
+					return "w!ok"
+				}
+				return ""
+			})
+			emit(sc, w, "two-senders")
+		}
 	}
 	// (D) the lent buffer: a message is being unmarshalled (MsgRecv holds the reader's buffer) when the
 	// stream is terminated; if that lets the reader's HandlePacket return, the reader reuses its
